@@ -715,6 +715,29 @@ class SMCSamples(BaseSamples):
             log_evidence_error=self.log_evidence_error,
         )
 
+    def to_namespace(self, xp):
+        # Keep the temperature and the attached evidence (the inherited
+        # conversion only knows the per-sample fields).
+        dtype = convert_dtype(self.dtype, xp)
+
+        def convert(value):
+            if value is None:
+                return None
+            return asarray(value, xp, dtype=dtype)
+
+        return self.__class__(
+            x=convert(self.x),
+            parameters=self.parameters,
+            log_likelihood=convert(self.log_likelihood),
+            log_prior=convert(self.log_prior),
+            log_q=convert(self.log_q),
+            beta=self.beta,
+            log_evidence=convert(self.log_evidence),
+            log_evidence_error=convert(self.log_evidence_error),
+            xp=xp,
+            dtype=dtype,
+        )
+
     def to_numpy(self):
         return self.__class__(
             x=to_numpy(self.x),
